@@ -21,6 +21,9 @@ def agreement(path, unreferenced_is_violation=True, check_schema=True):
         if not fp:
             return ("no_file_path", "a row group of _metadata has no file_path")
         per_file[fp] = per_file.get(fp, 0) + rg.num_rows
+    total = sum(rg.num_rows for rg in pf.row_groups)
+    if pf.fmd.num_rows != total:
+        return ("summary_num_rows", "_metadata states %r rows, its row groups hold %d" % (pf.fmd.num_rows, total))
     schema0 = _schema_sig(pf)
     for fp, rows in sorted(per_file.items()):
         full = os.path.join(path, fp)
